@@ -70,18 +70,20 @@ type c13Source struct {
 }
 
 type c13Case struct {
-	Name      string    `json:"sub_lattice"`
-	TMS       string    `json:"tms"`
-	IDs       []int     `json:"ids"`
-	Page      int       `json:"page_size"` // 0 = default (flag omitted)
-	Keep      bool      `json:"keep"`
-	Ignore    bool      `json:"ignore_outside_grid"`
-	Reverse   bool      `json:"reverse"`
-	Overwrite bool      `json:"overwrite"`
-	Existing  bool      `json:"pre_existing_targets"`
-	Path      string    `json:"target_path"`
-	Src       c13Source `json:"source"`
-	UseEnv    bool      `json:"flags_via_environment"`
+	Name      string `json:"sub_lattice"`
+	TMS       string `json:"tms"`
+	IDs       []int  `json:"ids"`
+	Page      int    `json:"page_size"` // 0 = default (flag omitted)
+	Keep      bool   `json:"keep"`
+	Ignore    bool   `json:"ignore_outside_grid"`
+	Reverse   bool   `json:"reverse"`
+	Overwrite bool   `json:"overwrite"`
+	Existing  bool   `json:"pre_existing_targets"`
+	// ExistingIDs: with Existing, only the targets of these ids exist beforehand (nil = all requested ids)
+	ExistingIDs []int     `json:"pre_existing_ids,omitempty"`
+	Path        string    `json:"target_path"`
+	Src         c13Source `json:"source"`
+	UseEnv      bool      `json:"flags_via_environment"`
 }
 
 func (s c13Source) key() string { b, _ := json.Marshal(s); return string(b) }
@@ -222,7 +224,11 @@ func c13One(texel, work string, shard int, c c13Case, srcCache map[string]string
 	}
 	ids := dedupSorted(c.IDs)
 	if c.Existing {
-		for _, id := range ids {
+		pre := ids
+		if c.ExistingIDs != nil {
+			pre = c.ExistingIDs
+		}
+		for _, id := range pre {
 			old := filepath.Join(outDir, expectedName(c.Path, id))
 			oldSrc := c13Source{Tables: []string{"parcels", "roads"}, Polys: []string{"plain", "plain", "hole", "plain"}, Lines: 2}
 			if err := oldSrc.build(old); err != nil {
@@ -357,6 +363,19 @@ func c13Cases(thorough bool) []c13Case {
 			}
 		}
 	}
+	// L7: overwrite with only some of the targets present beforehand: id lists (ascending, descending, three ids) x every
+	// non-empty proper subset of the requested ids having an old target file
+	for _, ids := range [][]int{{5, 8}, {8, 5}, {5, 8, 10}} {
+		for m := 1; m < 1<<uint(len(ids))-1; m++ {
+			var pre []int
+			for i, id := range ids {
+				if m>>uint(i)&1 == 1 {
+					pre = append(pre, id)
+				}
+			}
+			cs = append(cs, c13Case{Name: "L7 overwrite, subset of targets pre-existing", TMS: rd, IDs: ids, Page: 2, Overwrite: true, Existing: true, ExistingIDs: pre, Path: "out.gpkg", Src: s2b})
+		}
+	}
 	// L4: family of sources: every sequence of <= 2 polygon kinds x every sequence of <= 1 multipolygon kinds, plus point/line tables
 	pk := []string{"plain", "pinch", "small", "tiny", "hole", "cw"}
 	mk := []string{"m-two", "m-mixed", "m-collapse"}
@@ -478,6 +497,6 @@ func runC13() {
 		"states": tot.States, "transitions": tot.States, "traces_validated_against_impl": 0, "samples": tot.Samples,
 		"evaluations": tot.States, "distinct_nontrivial": tot.Nontrivial, "exhaustive": tot.Exhaustive && int(tot.States) == len(cases),
 		"runs_per_sub_lattice": tot.PerLattice,
-		"rule":                 "state = one invocation of the real texel binary; the lattice is the union of fully enumerated sub-lattices: L1 id lists (single, descending, three, duplicate) x keep x reverse x page size {1,2,default}; L2 all 8 flag combinations (command line and environment) on a source with an outside-grid feature and on an in-grid source; L3 5 target path shapes x {fresh, overwrite, pre-existing + overwrite} x ids; L4 every sequence of <= 2 polygon kinds x <= 1 (thorough 2) multipolygon kinds with line table; L6 WebMercatorQuad and WorldMercatorWGS84Quad x two id lists x keep/reverse; thorough L5 page sizes x four tables; each run is compared file by file, table by table, row by row with the reference; non-trivial = sources with at least one (multi)polygon",
+		"rule":                 "state = one invocation of the real texel binary; the lattice is the union of fully enumerated sub-lattices: L1 id lists (single, descending, three, duplicate) x keep x reverse x page size {1,2,default}; L2 all 8 flag combinations (command line and environment) on a source with an outside-grid feature and on an in-grid source; L3 5 target path shapes x {fresh, overwrite, pre-existing + overwrite} x ids; L7 overwrite with every non-empty proper subset of the requested targets pre-existing x three id lists; L4 every sequence of <= 2 polygon kinds x <= 1 (thorough 2) multipolygon kinds with line table; L6 WebMercatorQuad and WorldMercatorWGS84Quad x two id lists x keep/reverse; thorough L5 page sizes x four tables; each run is compared file by file, table by table, row by row with the reference; non-trivial = sources with at least one (multi)polygon",
 	})
 }
